@@ -177,26 +177,7 @@ func isParam(v ssa.Value, name string) bool {
 
 // isFieldOfParam: v is a (possibly nested) field load path.of a parameter, e.g. data.Validator.Address
 func isFieldOfParam(v ssa.Value, param string, path ...string) bool {
-	for i := len(path) - 1; i >= 0; i-- {
-		base, n, ok := fieldLoadOf(v)
-		if !ok || n != path[i] {
-			return false
-		}
-		v = base
-	}
-	// base may be the parameter itself, or the address of a spilled parameter
-	v = strip(v)
-	if p, ok := v.(*ssa.Parameter); ok {
-		return p.Name() == param
-	}
-	if a, ok := v.(*ssa.Alloc); ok {
-		if s := singleStore(a); s != nil {
-			if p, ok := strip(s).(*ssa.Parameter); ok {
-				return p.Name() == param
-			}
-		}
-	}
-	return false
+	return PField(PParam(param), path...)(v)
 }
 
 // inLoop: the instruction can be executed again after having executed.
